@@ -13,3 +13,4 @@ CONSTANTS
 INVARIANT EmptyIsIdentity
 INVARIANT ResultTokensAccounted
 INVARIANT UntouchedKept
+INVARIANT GroupIsSequential
